@@ -1,0 +1,268 @@
+//! Verification hooks, compiled only under `--cfg orx_concurrent_iter_verif`.
+//!
+//! Drop-in shims for the atomic types used by the crate. Every operation performs exactly the
+//! same `std` atomic operation with the same ordering; in addition it reports the operation to
+//! two optional process-wide callbacks: `pre` (before the operation, a possible yield point for an
+//! external scheduler) and `post` (after it, with the observed values).
+//! With no callback installed the shims only add two relaxed loads of a null pointer.
+
+use std::fmt;
+use std::sync::atomic::AtomicPtr;
+pub use std::sync::atomic::Ordering;
+
+/// Kind of an observed atomic operation.
+#[derive(Debug, Clone, Copy, PartialEq, Eq)]
+#[repr(u8)]
+pub enum OpKind {
+    /// plain load
+    Load = 0,
+    /// plain store
+    Store = 1,
+    /// read-modify-write (fetch_add, swap, fetch_max, ... and successful compare_exchange)
+    Rmw = 2,
+    /// failed compare_exchange (acts as a load with the failure ordering)
+    CasFail = 3,
+    /// memory fence
+    Fence = 4,
+}
+
+/// An observed atomic operation.
+#[derive(Debug, Clone, Copy)]
+pub struct Event {
+    /// address of the atomic object (0 for a fence)
+    pub addr: usize,
+    /// kind of the operation
+    pub kind: OpKind,
+    /// memory ordering that the operation used
+    pub ordering: Ordering,
+    /// value before the operation (bool as 0/1)
+    pub before: usize,
+    /// value after the operation (bool as 0/1)
+    pub after: usize,
+}
+
+/// Callback invoked before every atomic operation.
+pub type PreHook = fn(addr: usize, kind: OpKind, ordering: Ordering);
+/// Callback invoked after every atomic operation.
+pub type PostHook = fn(event: &Event);
+
+static PRE: AtomicPtr<()> = AtomicPtr::new(std::ptr::null_mut());
+static POST: AtomicPtr<()> = AtomicPtr::new(std::ptr::null_mut());
+
+/// Installs (or with `None` removes) the process-wide callbacks.
+pub fn set_hooks(pre: Option<PreHook>, post: Option<PostHook>) {
+    let pre = pre.map(|f| f as *mut ()).unwrap_or(std::ptr::null_mut());
+    let post = post.map(|f| f as *mut ()).unwrap_or(std::ptr::null_mut());
+    PRE.store(pre, Ordering::SeqCst);
+    POST.store(post, Ordering::SeqCst);
+}
+
+#[inline(always)]
+fn pre(addr: usize, kind: OpKind, ordering: Ordering) {
+    let p = PRE.load(Ordering::Relaxed);
+    if !p.is_null() {
+        // SAFETY: only ever stored from a `PreHook` in `set_hooks`
+        let f: PreHook = unsafe { std::mem::transmute::<*mut (), PreHook>(p) };
+        f(addr, kind, ordering);
+    }
+}
+
+#[inline(always)]
+fn post(addr: usize, kind: OpKind, ordering: Ordering, before: usize, after: usize) {
+    let p = POST.load(Ordering::Relaxed);
+    if !p.is_null() {
+        // SAFETY: only ever stored from a `PostHook` in `set_hooks`
+        let f: PostHook = unsafe { std::mem::transmute::<*mut (), PostHook>(p) };
+        f(&Event {
+            addr,
+            kind,
+            ordering,
+            before,
+            after,
+        });
+    }
+}
+
+/// Memory fence, reported to the callbacks.
+pub fn fence(ordering: Ordering) {
+    pre(0, OpKind::Fence, ordering);
+    std::sync::atomic::fence(ordering);
+    post(0, OpKind::Fence, ordering, 0, 0);
+}
+
+pub use std::sync::atomic::compiler_fence;
+
+macro_rules! shim {
+    ($name:ident, $std:ty, $val:ty, $to:expr, $doc:expr) => {
+        #[doc = $doc]
+        #[derive(Default)]
+        pub struct $name($std);
+
+        impl $name {
+            /// See the `std` type.
+            pub const fn new(v: $val) -> Self {
+                Self(<$std>::new(v))
+            }
+
+            #[inline(always)]
+            fn addr(&self) -> usize {
+                &self.0 as *const _ as usize
+            }
+
+            /// See the `std` type.
+            pub fn into_inner(self) -> $val {
+                self.0.into_inner()
+            }
+
+            /// See the `std` type.
+            pub fn get_mut(&mut self) -> &mut $val {
+                self.0.get_mut()
+            }
+
+            /// See the `std` type.
+            #[inline(always)]
+            pub fn load(&self, order: Ordering) -> $val {
+                pre(self.addr(), OpKind::Load, order);
+                let v = self.0.load(order);
+                post(self.addr(), OpKind::Load, order, $to(v), $to(v));
+                v
+            }
+
+            /// See the `std` type.
+            #[inline(always)]
+            pub fn store(&self, val: $val, order: Ordering) {
+                pre(self.addr(), OpKind::Store, order);
+                self.0.store(val, order);
+                post(self.addr(), OpKind::Store, order, $to(val), $to(val));
+            }
+
+            /// See the `std` type.
+            #[inline(always)]
+            pub fn swap(&self, val: $val, order: Ordering) -> $val {
+                pre(self.addr(), OpKind::Rmw, order);
+                let old = self.0.swap(val, order);
+                post(self.addr(), OpKind::Rmw, order, $to(old), $to(val));
+                old
+            }
+
+            /// See the `std` type.
+            #[inline(always)]
+            pub fn compare_exchange(
+                &self,
+                current: $val,
+                new: $val,
+                success: Ordering,
+                failure: Ordering,
+            ) -> Result<$val, $val> {
+                pre(self.addr(), OpKind::Rmw, success);
+                let r = self.0.compare_exchange(current, new, success, failure);
+                match r {
+                    Ok(old) => post(self.addr(), OpKind::Rmw, success, $to(old), $to(new)),
+                    Err(old) => post(self.addr(), OpKind::CasFail, failure, $to(old), $to(old)),
+                }
+                r
+            }
+
+            /// See the `std` type (never fails spuriously here).
+            #[inline(always)]
+            pub fn compare_exchange_weak(
+                &self,
+                current: $val,
+                new: $val,
+                success: Ordering,
+                failure: Ordering,
+            ) -> Result<$val, $val> {
+                self.compare_exchange(current, new, success, failure)
+            }
+
+            /// See the `std` type.
+            #[inline(always)]
+            pub fn fetch_update<F>(
+                &self,
+                set_order: Ordering,
+                fetch_order: Ordering,
+                mut f: F,
+            ) -> Result<$val, $val>
+            where
+                F: FnMut($val) -> Option<$val>,
+            {
+                let mut prev = self.load(fetch_order);
+                while let Some(next) = f(prev) {
+                    match self.compare_exchange_weak(prev, next, set_order, fetch_order) {
+                        x @ Ok(_) => return x,
+                        Err(next_prev) => prev = next_prev,
+                    }
+                }
+                Err(prev)
+            }
+        }
+
+        impl From<$val> for $name {
+            fn from(v: $val) -> Self {
+                Self::new(v)
+            }
+        }
+
+        impl fmt::Debug for $name {
+            fn fmt(&self, f: &mut fmt::Formatter<'_>) -> fmt::Result {
+                fmt::Debug::fmt(&self.0, f)
+            }
+        }
+    };
+}
+
+macro_rules! shim_rmw {
+    ($name:ident, $val:ty, $to:expr, $($method:ident),*) => {
+        impl $name {
+            $(
+                /// See the `std` type.
+                #[inline(always)]
+                pub fn $method(&self, val: $val, order: Ordering) -> $val {
+                    pre(self.addr(), OpKind::Rmw, order);
+                    let old = self.0.$method(val, order);
+                    let new = self.0.load(Ordering::Relaxed);
+                    post(self.addr(), OpKind::Rmw, order, $to(old), $to(new));
+                    old
+                }
+            )*
+        }
+    };
+}
+
+shim!(
+    AtomicUsize,
+    std::sync::atomic::AtomicUsize,
+    usize,
+    |v: usize| v,
+    "Reporting shim of `std::sync::atomic::AtomicUsize`."
+);
+shim_rmw!(
+    AtomicUsize,
+    usize,
+    |v: usize| v,
+    fetch_add,
+    fetch_sub,
+    fetch_max,
+    fetch_min,
+    fetch_and,
+    fetch_or,
+    fetch_xor,
+    fetch_nand
+);
+
+shim!(
+    AtomicBool,
+    std::sync::atomic::AtomicBool,
+    bool,
+    |v: bool| v as usize,
+    "Reporting shim of `std::sync::atomic::AtomicBool`."
+);
+shim_rmw!(
+    AtomicBool,
+    bool,
+    |v: bool| v as usize,
+    fetch_and,
+    fetch_or,
+    fetch_xor,
+    fetch_nand
+);
